@@ -618,10 +618,6 @@ End BoundSpec.
 Definition rdp_bad_f (p : path) (fl : list bool) (epsilon : float) : list nat :=
   rdp_bad float perp_d2 PrimFloat.leb p fl (fsqr epsilon).
 
-(* some two vertices coincide (the only way the un-flagging loop of RDP can fire) *)
-Fixpoint has_repeat (p : path) : bool :=
-  match p with [] => false | a :: t => existsb (pt_eqb a) t || has_repeat t end.
-
 (* ------------------------------------------------------------------ sanity *)
 Example trim_ex1 : trim_collinear [(0,0);(5,0);(10,0);(10,10);(0,10)]%Z false = Ok [(0,0);(10,0);(10,10);(0,10)]%Z.
 Proof. reflexivity. Qed.
